@@ -3,7 +3,6 @@ CONSTANTS
   Impl = "asfound"
   Walk = "sorted"
   Slices <- TinySlices
-  QuantsOf <- TierQuants
 SPECIFICATION Spec
 INVARIANTS TypeOK Faithful
 CHECK_DEADLOCK FALSE
